@@ -833,7 +833,7 @@ func TestVerif_C04(t *testing.T) {
 		c.Rule("states = reachable (environment, emitted membership per IP set, internal reference counts / cached matches / parent bookkeeping / suppression tries / candidate-index probes) " +
 			"of the real SelectorAndNamedPortIndex, explored separately with overlap suppression off and on; transitions = one real API call " +
 			"(UpdateEndpointOrSet, DeleteEndpoint, OnUpdate(NetworkSet), UpdateParentLabels, DeleteParentLabels, UpdateIPSet, DeleteIPSet incl. re-sends and deletes of absent things) " +
-			"replayed on a fresh index; non-trivial = a member contributed more than once (shared IP / duplicate net / endpoint+set overlap) or hidden by suppression")
+			"replayed on a fresh index; plus a large-count slice: for N in {1,2,127,128,129,255,256,257,511,512,513} endpoints / network sets / a mix sharing ONE member (and 63..256 contributors listing it twice) a scripted add-all / move-one / unmatch-one / add-and-remove-one-more / re-create-set / remove-all sequence with the oracle after every step; non-trivial = a member contributed more than once (shared IP / duplicate net / endpoint+set overlap) or hidden by suppression")
 		c.Assume("a network set's 0.0.0.0/0 (::/0) is compared as the two /1 halves without suppression (documented dataplane workaround) and by address union with suppression")
 		c.Assume("when two parents carry the same label the first parent in the list wins (statement is silent; the index does this)")
 		c.Assume("removal of a whole IP set is en masse: the harness forgets the set's members on DeleteIPSet, as the calc graph does")
@@ -862,6 +862,10 @@ func TestVerif_C04(t *testing.T) {
 			var ru *c04Universe
 			var prefix []c04Ev
 			switch {
+			case strings.HasPrefix(d.Spec, "npidx-L"):
+				n := 0
+				fmt.Sscanf(d.Spec, "npidx-L%d-", &n)
+				ru = c04LargeUniverse(n)
 			case strings.HasPrefix(d.Spec, "npidx-t"):
 				ru = c04Universes("t")
 			case strings.HasPrefix(d.Spec, "npidx-m"):
@@ -923,6 +927,8 @@ func TestVerif_C04(t *testing.T) {
 				hbfs.Explore(c, c04Spec(um, suppress, c.Pick(3, 4), false, workers, nil, fmt.Sprintf("-pre%d", i), pre))
 			}
 		}
+		// many contributors to one member (counter boundaries), scripted
+		c04Large(c, workers)
 		if c.Thorough() {
 			// larger universe (third endpoint with IPv6, second parent, 8 IP sets, an IP-set id whose
 			// content changes in place): depth-bounded graph search
